@@ -489,6 +489,11 @@ def _arm_consts(fn, blocks):
                     sig["bound"].add(r[1] if op == "Le" else r[1] - 1)
                 if op in ("Ge", "Gt") and l[0] == "c" and l[1] > 256:
                     sig["bound"].add(l[1] if op == "Ge" else l[1] - 1)
+                # ... or as the first offset that ends the scan: x > c / x >= c+1 / c < x / c+1 <= x (`if off > LEN - w { break }`)
+                if op in ("Gt", "Ge") and r[0] == "c" and r[1] > 256:
+                    sig["bound"].add(r[1] if op == "Gt" else r[1] - 1)
+                if op in ("Lt", "Le") and l[0] == "c" and l[1] > 256:
+                    sig["bound"].add(l[1] if op == "Lt" else l[1] - 1)
                 if op == "BitAnd" and r[0] == "c" and r[1] > 0xFFFF:
                     sig["mask"].add(r[1])
                 if op == "BitAnd" and l[0] == "c" and l[1] > 0xFFFF:
@@ -1507,7 +1512,24 @@ def or5(F, R):
                     problems.append("range does not start at cluster_to_block(new cluster): %s" % [tstr(s_) for s_ in sts])
             skips = [s for s in subs if s[0] == "call" and s[1] and s[1].endswith("Iterator::skip")]
             if name == "make_dir":
-                if not (len(skips) == 1 and skips[0][2][1][:2] == ("c", 1)):
+                # exactly one block is left out in front: `.skip(1)`, or one item taken off the iterator before the loop
+                dropped = sum(sk[2][1][1] if sk[2][1][0] == "c" and isinstance(sk[2][1][1], int) else 99 for sk in skips)
+                nx = [s_ for s_ in subs if s_[0] == "call" and s_[1] and s_[1].endswith("Iterator::next") and len(s_[2]) == 1 and strip_refs(s_[2][0])[0] == "var"]
+                if len(nx) == 1:
+                    itv = strip_refs(nx[0][2][0])[1]
+                    its = {itv}          # the loop's iterator and the variable it was moved from (`for x in it` = into_iter(it))
+                    for _k in range(3):
+                        for v_ in list(its):
+                            for d_ in var_def_terms(fn, v_):
+                                d_ = strip_refs(d_)
+                                if d_[0] == "call" and d_[1] and d_[1].endswith("into_iter") and d_[2] and strip_refs(d_[2][0])[0] == "var":
+                                    its.add(strip_refs(d_[2][0])[1])
+                    inloop = {x for l_ in fn.loops() for x in l_[1]}
+                    for b2, t2 in fn.calls():
+                        rcv = strip_refs(fn.term_of_operand(t2["args"][0], b2)) if t2["args"] else None
+                        if (callee_of(t2) or "").endswith("Iterator::next") and b2 != nx[0][3] and b2 not in inloop and rcv is not None and rcv[0] == "var" and rcv[1] in its:
+                            dropped += 1
+                if dropped != 1:
                     problems.append("make_dir must skip exactly the first block (already written with the dot entries)")
             elif skips:
                 problems.append("alloc_cluster must not skip blocks when zeroing")
